@@ -74,6 +74,33 @@ pub struct Cfg {
     /// the debugger is already paused when the request arrives
     #[serde(default)]
     pub paused: bool,
+    /// which optional parts of `ControlState` are present (see `VARIANTS`)
+    #[serde(default)]
+    pub variant: u8,
+}
+
+/// Optional parts of `ControlState`. Variant 0 is the standard fixture (pairing store,
+/// project root and I/O snapshot present; audit channel and historian absent).
+pub const VARIANTS: &[(u8, &str)] = &[
+    (0, "standard"),
+    (1, "pairing=None"),
+    (2, "project_root=None"),
+    (3, "audit_tx=Some"),
+    (4, "io_snapshot=None"),
+    (5, "historian=Some"),
+    (6, "pairing=None project_root=None io_snapshot=None"),
+];
+
+impl Cfg {
+    pub fn pairing_present(&self) -> bool {
+        !matches!(self.variant, 1 | 6)
+    }
+    pub fn project_present(&self) -> bool {
+        !matches!(self.variant, 2 | 6)
+    }
+    pub fn io_snapshot_present(&self) -> bool {
+        !matches!(self.variant, 4 | 6)
+    }
 }
 
 impl Cfg {
@@ -84,7 +111,13 @@ impl Cfg {
             self.debug_enabled as u8,
             if self.mode_debug { "debug" } else { "production" },
             if self.paused { " paused" } else { "" }
-        )
+        ) + &match self.variant {
+            0 => String::new(),
+            v => format!(
+                " [{}]",
+                VARIANTS.iter().find(|(n, _)| *n == v).map(|(_, t)| *t).unwrap_or("?")
+            ),
+        }
     }
 }
 
@@ -294,6 +327,10 @@ pub struct Fixture {
     reader: Option<BufReader<UnixStream>>,
     responder: Option<std::thread::JoinHandle<()>>,
     fence: ResourceControl<StdClock>,
+    /// receiving end of the audit channel (variant 3); kept so that sends succeed
+    #[allow(dead_code)]
+    audit_rx: Option<std::sync::mpsc::Receiver<trust_runtime::control::ControlAuditEvent>>,
+    pub sock: PathBuf,
     /// the command record could not be brought up to date (infrastructure trouble)
     pub fence_failed: std::cell::Cell<bool>,
     pub debug_layout_ok: bool,
@@ -394,7 +431,10 @@ impl Fixture {
             path: PathBuf::from("main.st"),
             text: SOURCE.to_string(),
         }]);
-        let descriptor = HmiRuntimeDescriptor::from_sources(Some(&project), &sources);
+        let descriptor = HmiRuntimeDescriptor::from_sources(
+            if cfg.project_present() { Some(project.as_path()) } else { None },
+            &sources,
+        );
 
         // raise the out-of-range alarm so that hmi.alarm.ack has something to acknowledge
         let mut live = trust_runtime::hmi::HmiLiveState::default();
@@ -433,12 +473,39 @@ impl Fixture {
 
         let io_snapshot = harness.runtime().io().snapshot();
         let fence = resource.clone();
+        let (audit_tx, audit_rx) = if cfg.variant == 3 {
+            let (tx, rx) = std::sync::mpsc::channel();
+            (Some(tx), Some(rx))
+        } else {
+            (None, None)
+        };
+        let historian = if cfg.variant == 5 {
+            let h = trust_runtime::historian::HistorianService::new(
+                trust_runtime::historian::HistorianConfig {
+                    enabled: true,
+                    sample_interval_ms: 1_000,
+                    mode: trust_runtime::historian::RecordingMode::All,
+                    include: Vec::new(),
+                    history_path: project.join("hist/history.jsonl"),
+                    max_entries: 100,
+                    prometheus_enabled: false,
+                    prometheus_path: SmolStr::new("/metrics"),
+                    alerts: Vec::new(),
+                },
+                None,
+            )
+            .map_err(|e| format!("historian: {e}"))?;
+            let _ = h.capture_snapshot_at(&snapshot, 1_000);
+            Some(h)
+        } else {
+            None
+        };
         let state = Arc::new(ControlState {
             debug,
             resource,
             metadata: Arc::new(Mutex::new(metadata)),
             sources,
-            io_snapshot: Arc::new(Mutex::new(Some(io_snapshot))),
+            io_snapshot: Arc::new(Mutex::new(if cfg.io_snapshot_present() { Some(io_snapshot) } else { None })),
             pending_restart: Arc::new(Mutex::new(None)),
             auth_token: Arc::new(Mutex::new(if cfg.token_set {
                 Some(SmolStr::new(ADMIN_TOKEN))
@@ -451,19 +518,21 @@ impl Fixture {
             } else {
                 ControlMode::Production
             })),
-            audit_tx: None,
+            audit_tx,
             metrics: Arc::new(Mutex::new(RuntimeMetrics::default())),
             events: Arc::new(Mutex::new(events)),
             settings: Arc::new(Mutex::new(runtime_settings())),
-            project_root: Some(project.clone()),
+            project_root: if cfg.project_present() { Some(project.clone()) } else { None },
             resource_name: SmolStr::new(RESOURCE_NAME),
             io_health: Arc::new(Mutex::new(Vec::new())),
             debug_enabled: Arc::new(AtomicBool::new(cfg.debug_enabled)),
             debug_variables: Arc::new(Mutex::new(DebugVariableHandles::new())),
             hmi_live: Arc::new(Mutex::new(live)),
             hmi_descriptor: Arc::new(Mutex::new(descriptor)),
-            historian: None,
-            pairing: Some(store.clone()),
+            historian,
+            // the store object exists in every variant (the probe lists it); the endpoint
+            // only gets it when the variant says so
+            pairing: if cfg.pairing_present() { Some(store.clone()) } else { None },
         });
         drop(harness);
 
@@ -504,6 +573,8 @@ impl Fixture {
             reader: Some(reader),
             responder: Some(responder),
             fence,
+            audit_rx,
+            sock: sock.clone(),
             fence_failed: std::cell::Cell::new(false),
             debug_layout_ok: true,
             has_debug_snapshot,
@@ -539,6 +610,12 @@ impl Fixture {
     }
 
     pub fn probe(&self) -> ProbeState {
+        self.probe_with(true)
+    }
+
+    /// `with_moat = false` leaves the moat listing out (the probe BEFORE a request: the moat
+    /// was found clean after the previous one).
+    pub fn probe_with(&self, with_moat: bool) -> ProbeState {
         self.fence();
         let st = &self.state;
         let mut parts: Vec<(&'static str, String)> = Vec::new();
@@ -664,7 +741,11 @@ impl Fixture {
         // moat oracle: nothing the check did not create between the scratch top and this fixture
         parts.push((
             "outside_project",
-            super::moat().map(|m| m.foreign(Some(&self.dir))).unwrap_or_default(),
+            if with_moat {
+                super::moat().map(|m| m.foreign(Some(&self.dir))).unwrap_or_default()
+            } else {
+                String::new()
+            },
         ));
         parts.push((
             "hmi_descriptor",
@@ -721,6 +802,30 @@ impl Fixture {
                 Reply::Timeout
             }
             Err(_) => Reply::Closed,
+        }
+    }
+
+    /// Drop the connection and open a fresh one to the same endpoint.
+    pub fn reconnect(&mut self) -> Result<(), String> {
+        self.writer.take();
+        self.reader.take();
+        let stream = UnixStream::connect(&self.sock).map_err(|e| format!("connect: {e}"))?;
+        stream
+            .set_read_timeout(Some(Duration::from_secs(180)))
+            .map_err(|e| e.to_string())?;
+        stream
+            .set_write_timeout(Some(Duration::from_secs(180)))
+            .map_err(|e| e.to_string())?;
+        self.reader = Some(BufReader::new(stream.try_clone().map_err(|e| e.to_string())?));
+        self.writer = Some(stream);
+        Ok(())
+    }
+
+    /// The configured auth token, read even when its mutex is poisoned.
+    pub fn configured_token(&self) -> (Option<String>, bool) {
+        match self.state.auth_token.lock() {
+            Ok(g) => (g.as_ref().map(|t| t.to_string()), false),
+            Err(p) => (p.into_inner().as_ref().map(|t| t.to_string()), true),
         }
     }
 
